@@ -16,15 +16,16 @@ import (
 func init() {
 	Register(&Spec{
 		ID:          "C20",
-		Explanation: "Decides structural necessary conditions of faithful, history-independent text rendering: (R1) the escape predicate of strquote touches its byte only through comparisons with constants, so it is evaluated over all 256 byte values by constant folding on the SSA form: it must hold for the double quote, the backslash, every byte below 0x20 and every byte from 0x7f, every case constant of Append's escape switch must lie inside the set (a case the guard excludes is dead code contradicting the author's belief), and every byte in the set is emitted through an escape sequence; (R2) no error of the schema-driven marshal functions or of the capnp accessors they call is dropped (named exemptions for trusted default values); (R3) a message obtained from Unmarshal/Decode whose contents are cached beyond the call (nodemap) has its traversal limit lifted or re-armed before it is stored; (R4) the schema walker accesses a field only for the active union member, uses the accessor width and offset scale of the schema type table with the default XORed in, renders every Text/Data through strquote.Append on a scratch buffer reset to length 0. Does NOT decide injectivity of the whole rendering or float formatting.",
+		Explanation: "Decides structural necessary conditions of faithful, history-independent text rendering: (R1) the escape predicate of strquote touches its byte only through comparisons with constants, so it is evaluated over all 256 byte values by constant folding on the SSA form: it must hold for the double quote, the backslash, every byte below 0x20 and every byte from 0x7f, every case constant of Append's escape switch must lie inside the set (a case the guard excludes is dead code contradicting the author's belief), and every byte in the set is emitted through an escape sequence; (R2) no error of the schema-driven marshal functions or of the capnp accessors they call is dropped (named exemptions for trusted default values); (R3) a message obtained from Unmarshal/Decode whose contents are cached beyond the call (nodemap) has its traversal limit lifted or re-armed before it is stored; (R4) the schema walker accesses a field only for the active union member, uses the accessor width and offset scale of the schema type table with the default XORed in, renders every Text/Data through strquote.Append on a scratch buffer reset to length 0; (R6) nodemap.UseRegistry replaces the node cache unconditionally (nodes of the previous registry do not answer later lookups). Does NOT decide injectivity of the whole rendering or float formatting.",
 		Run:         runC20,
 	})
 }
 
 func runC20(ctx *Ctx) {
-	ruleEscapeSet(ctx, "C20-R1")
 	ruleEscapeMapping(ctx, "C20-R1m")
+	ruleEscapeSet(ctx, "C20-R1")
 	ruleResetComplete(ctx, "C20-R3u", "internal/nodemap", "Map", "UseRegistry", nil)
+	ruleRegistrySwitchDropsCache(ctx, "C20-R6")
 	ruleErrorsNotDropped(ctx, "C20-R2", []string{"encoding/text"}, nil, func(callee string) bool {
 		if strings.HasPrefix(callee, "encoding/text.(*errWriter).") {
 			return false // sticky writer: the first error is latched in errWriter.err and returned by Encode
@@ -245,7 +246,19 @@ func ruleEscapeSet(ctx *Ctx, rule string) {
 		}
 	}
 	if len(cases) == 0 {
-		r.Violation(rule, "Append | escape switch", q.Pos(ap.Pos()), "no escape switch found in Append")
+		// no per-byte switch (a table, say): which byte gets which escape is
+		// decided exactly by C20-R1m for all 256 bytes
+		mapped := true
+		for k := range r.ViolatedKeys() {
+			if strings.HasPrefix(k, "C20-R1m") {
+				mapped = false
+			}
+		}
+		if mapped {
+			r.Ok(rule, "Append | every escape case is reachable", q.Pos(ap.Pos()), "Append has no escape switch; the image of every byte was computed and found well formed by C20-R1m")
+		} else {
+			r.Violation(rule, "Append | escape switch", q.Pos(ap.Pos()), "no escape switch found in Append, and the byte-by-byte evaluation of the mapping (C20-R1m) did not succeed")
+		}
 	} else if len(dead) > 0 {
 		r.Violation(rule, "Append | every escape case is reachable", q.Pos(ap.Pos()), "Append has escape cases for "+strings.Join(dead, ", ")+" but needsEscape is false for them, so these bytes are copied raw: the guard contradicts the escape table")
 	} else {
